@@ -10,16 +10,18 @@ import re
 import sys
 sys.path.insert(0, os.path.join(os.path.dirname(os.path.abspath(__file__)), '..', 'tools'))
 import regex_dfa as R
-from vlib.core import Harness, SPEC_SRC
+from vlib.core import Harness, E2Spec, SPEC_SRC
 
 
 # per-validator bounds where the default bound does not finish under the per-harness cap (measured on this machine)
+# validators that allocate (Vec) are decided by engine E2 on their MIR instead of CBMC (which runs out of memory at 3 bytes, measured)
+E2_VALIDATORS = {'validate_regex_15': dict(quick=15, thorough=18)}
 BOUNDS = {
     # validate_regex_15 collects into a Vec (heap): CBMC runs out of memory at 4 symbolic bytes (measured) -> 3 bytes, long strings not covered
     ('quick', 'validate_regex_15'): dict(full=3, alpha=0),
     ('thorough', 'validate_regex_15'): dict(full=3, alpha=0),
-    ('quick', 'validate_regex_17'): dict(alpha=12),
-    ('quick', 'validate_regex_24'): dict(alpha=14),
+    ('quick', 'validate_regex_17'): dict(alpha=0),
+    ('quick', 'validate_regex_24'): dict(alpha=10),
 }
 
 
@@ -90,6 +92,7 @@ def build(tier, known):
                        'the max_length field of Pattern entries (enforced by the callers, see C08)'],
     )
     pairs = []
+    lookup = []
     for idx, text in enumerate(entries):
         if not text.startswith('CharacterDataSpec::Pattern'):
             continue
@@ -105,6 +108,18 @@ def build(tier, known):
         refname = f'ref_e{idx}'
         gen.append(R.emit_rust(refname, d))
         minacc, depth = dfa_depth(d)
+        lookup.append((idx, fn, refname))
+        if fn in E2_VALIDATORS:
+            nmax = E2_VALIDATORS[fn][tier]
+            pairs.append((idx, fn, 'r#"' + rx + '"#', m.group(4)))
+            for n in range(0, nmax + 1):
+                hs.append(E2Spec(f'e2_c19_e{idx}_re{k}_n{n}', 'C19Validator',
+                                 dict(fn='regex::' + fn, n=n, entry=idx, dfa=dict(cls=d['cls'], trans=d['trans'], accept=d['accept'], dead=d['dead']), _crates=['spec']),
+                                 functions=[f'regex::{fn} (+ its closures)'],
+                                 bound=f'all byte strings of length exactly {n} over all 256 byte values; every feasible MIR path explored',
+                                 claim=f'check_fn(s) == fullmatch(r"{rx}", s); reference DFA {d["nstates"]} states as one z3 term',
+                                 native=('spec', 'n_c19_validator'), parts=(16 if n >= 12 else (4 if n >= 9 else 1)), timeout=900 if tier == 'quick' else 7200))
+            continue
         nfull = 8 if tier == 'quick' else 12
         ov = BOUNDS.get((tier, fn), {})
         nfull = int(os.environ.get('VERIF_C19_FULL', ov.get('full', nfull)))
@@ -138,6 +153,18 @@ def build(tier, known):
                 bound=f'all strings of length <= {nred} over the {len(alph)}-byte alphabet {bytes(alph)!r} (one or two representatives per byte class of the reference DFA); unwind {nred + 2}',
                 claim=f'check_fn(s) == fullmatch(r"{rx}", s); reference depth {depth}' + ('' if nred >= want else f' (bound below depth+2={want})'),
                 timeout=300 if tier == 'quick' else 3600))
+    # native dispatch table entry -> (validator, reference) for E2 counterexample replay
+    arms = '\n'.join(f'        {idx} => (crate::regex::{fn} as fn(&[u8]) -> bool, {ref} as fn(&[u8]) -> bool),' for idx, fn, ref in lookup)
+    gen.append(f'''
+#[cfg(not(kani))]
+fn n_c19_lookup(entry: usize) -> (fn(&[u8]) -> bool, fn(&[u8]) -> bool) {{
+    match entry {{
+{arms}
+        _ => panic!("VK_REPLAY_SHAPE"),
+    }}
+}}
+''')
+    hs.append(Harness('n_c19_validator', 'spec', 'spec_lib.rs', '', functions=[], bound='', claim='', role='native'))
     # pairing harness
     body = []
     for idx, fn, lit, ml in pairs:
@@ -158,4 +185,5 @@ pub fn h_c19_table_pairs() {{
                       bound=f'concrete: {len(pairs)} Pattern entries, {ntab} table rows',
                       claim='each Pattern entry pairs the validator function with the regex text its reference DFA was generated from; no further Pattern entries exist',
                       timeout=600, expect_cover=False))
+    info['e2_spec_entries'] = [[idx, fn] for idx, fn, _ in lookup if fn in E2_VALIDATORS]
     return hs, {'spec_lib.rs': '\n'.join(gen)}, info
